@@ -6,6 +6,8 @@ Line-protocol driver for the `accessors`, `classifiers` and `shapes` suites (C15
   rerr <hex err text> <tree>    every RedisResult accessor when the result carries a non-nil error
   dsj  <tree> <tables>          DecodeSliceOfJSON
   cls  <hex text>               every RedisError classifier on that error text
+  !conv <Name> <tree> <tables>  ORACLE: a scalar conversion answered by the declarative specification
+                                Rv/Spec/Conv.lean (strconv int errors are coarsened to `err:num`)
   shape  <kind> <proto> <data>  dump of the shaped reply (ties Rv/Spec/Shapes.lean to the Go shapers)
   !shape <kind> <proto> <data>  ORACLE: the canonical text of the data itself (what the property demands
                                 of the accessor applied to the shaped reply), not computed from the model
@@ -17,6 +19,7 @@ Line-protocol driver for the `accessors`, `classifiers` and `shapes` suites (C15
 import Rv.Model.Hex
 import Rv.Model.AccessorsShape
 import Rv.Spec.Shapes
+import Rv.Spec.Conv
 open Rv Rv.Acc
 
 abbrev Toks := List String
@@ -338,6 +341,30 @@ def shapeLine (oracle : Bool) (kind proto : String) (ts : Toks) : String :=
   | some s => s
   | none => "bad-shape"
 
+/-! ### scalar conversions answered by the specification (not by the model) -/
+def convSpec (tb : Tables) : List (String × (Msg → String)) :=
+  let fp := tb.fp
+  [ ("AsBool", fun m => pRes pBool (Conv.specAsBool m)),
+    ("AsBoolSlice", fun m => pRes (pList pBool) (Conv.specAsBoolSlice m)),
+    ("AsBytes", fun m => pRes pBytes (Conv.specToString m)),
+    ("AsReader", fun m => pRes pBytes (Conv.specToString m)),
+    ("AsFloat64", fun m => pRes (pF tb) (Conv.specAsFloat64 fp m)),
+    ("AsFloatSlice", fun m => pRes (pList (pF tb)) (Conv.specAsFloatSlice fp m)),
+    ("AsInt64", fun m => pRes pInt (Conv.specAsInt64 m)),
+    ("AsIntSlice", fun m => pRes (pList pInt) (Conv.specAsIntSlice m)),
+    ("AsStrSlice", fun m => pRes (pList pStr) (Conv.specAsStrSlice m)),
+    ("AsUint64", fun m => pRes pNat (Conv.specAsUint64 m)),
+    ("ToBool", fun m => pRes pBool (Conv.specToBool m)),
+    ("ToFloat64", fun m => pRes (pF tb) (Conv.specToFloat64 fp m)),
+    ("ToInt64", fun m => pRes pInt (Conv.specToInt64 m)),
+    ("ToString", fun m => pRes pStr (Conv.specToString m)) ]
+
+def convLine (tb : Tables) (name : String) (m : Msg) : String :=
+  let bare := if name.startsWith "M." || name.startsWith "R." then name.drop 2 else name
+  match (convSpec tb).find? (·.1 == bare) with
+  | some (_, f) => f m
+  | none => "no-spec"
+
 def step (_ : Unit) (ws : List String) : Unit × String :=
   let out :=
     match ws with
@@ -351,6 +378,12 @@ def step (_ : Unit) (ws : List String) : Unit × String :=
       match pMsg rest with
       | some (m, tbl) => match pTables tbl with
         | some tb => accLine tb name m
+        | none => "bad-tables"
+      | none => "bad-tree"
+    | "!conv" :: name :: rest =>
+      match pMsg rest with
+      | some (m, tbl) => match pTables tbl with
+        | some tb => convLine tb name m
         | none => "bad-tables"
       | none => "bad-tree"
     | "rerr" :: e :: rest =>
